@@ -859,19 +859,17 @@ pub fn deviations() -> Vec<Dev> {
             refresh_created(&mut c.tx);
             true
         }),
-        dev!("create_slots_duplicate_key", true, |c| {
+        // duplicate key: the value order must not matter (the rule is about keys only)
+        dev!("create_slots_duplicate_key_same_value", true, |c| dup_slots(c, VAL_HI, VAL_HI)),
+        dev!("create_slots_duplicate_key_values_ascending", true, |c| dup_slots(c, VAL_LO, VAL_HI)),
+        dev!("create_slots_duplicate_key_values_descending", true, |c| dup_slots(c, VAL_HI, VAL_LO)),
+        dev!("create_slots_unsorted_values_opposite", true, |c| {
             match &mut c.tx.body {
-                Body::Create { slots, .. } if !slots.is_empty() => {
-                    // same key twice in a row (different values): not strictly
-                    // increasing; the number of slots is kept when there are >= 2
-                    let n = slots.len();
-                    if n >= 2 {
-                        let (k, v) = slots[n - 2];
-                        slots[n - 1] = (k, v ^ 0x55);
-                    } else {
-                        let (k, v) = slots[0];
-                        slots.push((k, v ^ 0x55));
-                    }
+                Body::Create { slots, .. } if slots.len() >= 2 => {
+                    // keys descending while the values ascend
+                    let (k0, k1) = (slots[0].0, slots[1].0);
+                    slots[0] = (k1, VAL_LO);
+                    slots[1] = (k0, VAL_HI);
                 }
                 _ => return false,
             }
@@ -1092,6 +1090,34 @@ pub fn deviations() -> Vec<Dev> {
             flip_witness(c, *wit)
         }),
     ]
+}
+
+/// value tags whose 32-byte values compare LO < HI
+const VAL_LO: u8 = 0x70;
+const VAL_HI: u8 = 0x01;
+
+/// make the last two slots share one key, with the given value tags (the number of
+/// slots is kept when there are >= 2); the ContractCreated output is recomputed for
+/// the slot list as given
+fn dup_slots(c: &mut Case, first: u8, second: u8) -> bool {
+    assert!(slot_val_b(VAL_LO) < slot_val_b(VAL_HI));
+    match &mut c.tx.body {
+        Body::Create { slots, .. } if !slots.is_empty() => {
+            let n = slots.len();
+            if n >= 2 {
+                let k = slots[n - 2].0;
+                slots[n - 2] = (k, first);
+                slots[n - 1] = (k, second);
+            } else {
+                let k = slots[0].0;
+                slots[0] = (k, first);
+                slots.push((k, second));
+            }
+        }
+        _ => return false,
+    }
+    refresh_created(&mut c.tx);
+    true
 }
 
 fn flip_witness(c: &mut Case, wit: u16) -> bool {
